@@ -10,6 +10,7 @@ import (
 	"go/constant"
 	"go/token"
 	"go/types"
+	"unicode"
 )
 
 type bpVal struct {
@@ -205,6 +206,19 @@ func (c *Ctx) evalExpr(e ast.Expr, info *types.Info, env map[types.Object]int64,
 			callee, _ = info.Uses[fn].(*types.Func)
 		case *ast.SelectorExpr:
 			callee, _ = info.Uses[fn.Sel].(*types.Func)
+		}
+		// the character classes of package unicode, evaluated here on the byte seen as a rune (Latin-1)
+		if callee != nil && callee.Pkg() != nil && callee.Pkg().Path() == "unicode" {
+			a, ok := c.evalExpr(x.Args[0], info, env, depth)
+			if !ok || a.isBool {
+				return bpVal{}, false
+			}
+			classes := map[string]func(rune) bool{"IsSpace": unicode.IsSpace, "IsLetter": unicode.IsLetter, "IsDigit": unicode.IsDigit,
+				"IsUpper": unicode.IsUpper, "IsLower": unicode.IsLower, "IsPunct": unicode.IsPunct, "IsControl": unicode.IsControl, "IsPrint": unicode.IsPrint}
+			if f, known := classes[callee.Name()]; known {
+				return bpVal{isBool: true, b: f(rune(a.i))}, true
+			}
+			return bpVal{}, false
 		}
 		if callee == nil || !isModulePkg(callee.Pkg()) {
 			return bpVal{}, false
